@@ -56,7 +56,8 @@ class Check:
         except ValueError:
             self.seed = 0
         self.t0 = time.time()
-        self.work = os.path.join(ROOT, ".work", "%s-%d" % (pid, os.getpid()))
+        base = "/dev/shm/verif-work" if os.path.isdir("/dev/shm") and os.access("/dev/shm", os.W_OK) else os.path.join(ROOT, ".work")
+        self.work = os.path.join(base, "%s-%d" % (pid, os.getpid()))
         shutil.rmtree(self.work, ignore_errors=True)
         os.makedirs(self.work, exist_ok=True)
         self.known = load_known(pid)
